@@ -49,6 +49,17 @@ pub enum WsStep {
     /// reading 15 ms later: with the small socket buffers of such a session the transport
     /// exerts back-pressure (Pending) in the middle of the burst
     WriteBurst(#[serde(with = "crate::scenario::hexvec")] Vec<Vec<u8>>),
+    /// the relay has stopped reading; the application keeps writing (`count` text messages to
+    /// connections, IS_MTC, each with its own serial number in the text and `pad` filler
+    /// characters) but gives each write only two polls before dropping it (a select! against a
+    /// tick): far more than the socket buffers and the WebSocket layer's own 128 KiB write
+    /// buffer hold. Then the relay reads again and the application writes `last`, awaited in full.
+    AbandonedBurst {
+        count: u32,
+        pad: u32,
+        #[serde(with = "hex")]
+        last: Vec<u8>,
+    },
 }
 
 #[derive(Serialize, Deserialize, Clone, Copy, Debug, PartialEq, Eq)]
@@ -81,6 +92,32 @@ pub struct WsSc {
     pub trace: bool,
 }
 
+/// text the relay may send (status lines, JSON, error pages): short or long, ASCII or not
+fn gen_text(rng: &mut Rng) -> String {
+    if rng.chance(1, 2) {
+        return "relay says hi".into();
+    }
+    let mut s = String::new();
+    for _ in 0..rng.below(4) {
+        s.push(*rng.pick(&['a', '{', ' ', '1']));
+    }
+    let target = *rng.pick(&[1usize, 10, 63, 64, 65, 100, 127, 128, 129, 300, 1100, 7000]);
+    let c = *rng.pick(&['x', 'é', 'é', '€', '😀', 'я']);
+    while s.len() < target {
+        s.push(if rng.chance(1, 8) { ' ' } else { c });
+    }
+    s
+}
+
+/// the k-th packet of an abandoned burst
+fn burst_packet(k: usize, pad: u32) -> insim::Packet {
+    insim::Packet::Mtc(insim::insim::Mtc {
+        reqi: insim::identifiers::RequestId((k % 255 + 1) as u8),
+        text: format!("{:08}{}", k, "x".repeat(pad as usize)),
+        ..Default::default()
+    })
+}
+
 const GUARD: Duration = Duration::from_secs(3);
 
 #[derive(Debug, Clone, Serialize)]
@@ -92,6 +129,8 @@ enum WEv {
     ServerGotNothing,
     End { res: AppRes },
     Burst { wrote: Vec<AppRes>, got: Vec<String> },
+    /// outcome per write (0 dropped while pending, 1 completed, 2 failed), what the server saw
+    Abandoned { outcome: Vec<u8>, failed: Option<AppRes>, last: AppRes, got: Vec<String> },
     Cancelled { completed: Option<AppRes> },
 }
 
@@ -150,7 +189,7 @@ fn run_ws_inner(sc: &WsSc) -> WsRun {
     let mut events = Vec::new();
     crate::model::enter_guard();
     let r: Result<Result<(), String>, Box<dyn std::any::Any + Send>> = std::panic::catch_unwind(std::panic::AssertUnwindSafe(|| rt.block_on(async {
-        let small = sc.steps.iter().any(|s| matches!(s, WsStep::WriteBurst(_)));
+        let small = sc.steps.iter().any(|s| matches!(s, WsStep::WriteBurst(_) | WsStep::AbandonedBurst { .. }));
         let lsock = tokio::net::TcpSocket::new_v4().map_err(|e| e.to_string())?;
         if small {
             // client -> server direction only: the server -> client direction keeps default
@@ -242,6 +281,64 @@ fn run_ws_inner(sc: &WsSc) -> WsRun {
                         Ok(r) => Some(to_res(r)),
                     };
                     events.push(WEv::Cancelled { completed });
+                },
+                WsStep::AbandonedBurst { count, pad, last } => {
+                    let Some(last_p) = ref_decode_packet(sc.mode, last).1 else { continue };
+                    let mut outcome = Vec::new();
+                    let mut failed = None;
+                    for k in 0..*count as usize {
+                        let p = burst_packet(k, *pad);
+                        let mut fut = Box::pin(framed.write(p));
+                        let mut done = None;
+                        for _ in 0..2 {
+                            let r = std::future::poll_fn(|cx| std::task::Poll::Ready(std::future::Future::poll(fut.as_mut(), cx))).await;
+                            if let std::task::Poll::Ready(r) = r {
+                                done = Some(r);
+                                break;
+                            }
+                            tokio::task::yield_now().await;
+                        }
+                        drop(fut);
+                        match done {
+                            None => outcome.push(0u8),
+                            Some(Ok(())) => outcome.push(1),
+                            Some(Err(e)) => {
+                                outcome.push(2);
+                                failed = Some(AppRes::from_err(&e));
+                                break;
+                            },
+                        }
+                    }
+                    let want_last = ref_encode(sc.mode, &last_p).map(|b| format!("binary:{}", hex::enc(&b))).unwrap_or_default();
+                    let cap = *count as usize + 8;
+                    let cli = async {
+                        match tokio::time::timeout(GUARD * 4, framed.write(last_p)).await {
+                            Err(_) => AppRes::Other("write did not finish within 12 s although the server was reading again".into()),
+                            Ok(Ok(())) => AppRes::Done,
+                            Ok(Err(e)) => AppRes::from_err(&e),
+                        }
+                    };
+                    let srv = async {
+                        let mut got = Vec::new();
+                        while got.len() < cap {
+                            match server_next(&mut server).await {
+                                Some(m) => {
+                                    let fin = m == want_last || m.starts_with('<');
+                                    got.push(m);
+                                    if fin {
+                                        break;
+                                    }
+                                },
+                                None => {
+                                    got.push("<nothing within 3 s>".into());
+                                    break;
+                                },
+                            }
+                        }
+                        got
+                    };
+                    let (last, got) = tokio::join!(cli, srv);
+                    events.push(WEv::Abandoned { outcome, failed, last, got });
                 },
                 WsStep::WriteBurst(fs) => {
                     let pkts: Vec<insim::Packet> = fs.iter().filter_map(|f| ref_decode_packet(sc.mode, f).1).collect();
@@ -501,7 +598,7 @@ impl Prop for C20 {
             }
             if with_other && rng.chance(1, 6) {
                 msgs.push(match rng.below(4) {
-                    0 => WsMsg::Text("relay says hi".into()),
+                    0 => WsMsg::Text(gen_text(rng)),
                     1 => {
                         let n = rng.usize(0, 8);
                         WsMsg::Ping(rng.bytes(n))
@@ -581,6 +678,16 @@ impl Prop for C20 {
             }
             let at = rng.usize(0, steps.len());
             steps.insert(at, WsStep::WriteBurst(fs));
+        }
+        // writes abandoned against a relay that has stopped reading
+        if rng.chance(1, 12) {
+            let pad = *rng.pick(&[0u32, 20, 60, 100, 110]);
+            // enough for the socket buffers plus the 128 KiB the WebSocket layer buffers
+            let count = ((170 * 1024) / (20 + pad as usize) + rng.usize(8, 200)) as u32;
+            // short and unlike any burst frame: the server recognises the end of the step by it
+            let last = gen::tiny(mode, 0xAB, 3);
+            let at = rng.usize(0, steps.len());
+            steps.insert(at, WsStep::AbandonedBurst { count, pad, last });
         }
         // in a third of the sessions the end of the stream is already queued behind the last
         // messages when the application gets round to reading them; the sentinel then goes
@@ -774,6 +881,89 @@ impl Prop for C20 {
                     // frames sent so far have been read, completing is a phantom
                     if let Some(r) = completed {
                         rep.violations.push(v("ws.phantom_result", format!("{} a read started with every sent frame already delivered completed at once with {:?}", tag, r)));
+                        stopped = true;
+                        break 'steps;
+                    }
+                },
+                WsStep::AbandonedBurst { count, pad, last } => {
+                    let Some(want_last) = ref_decode_packet(sc.mode, last).1.and_then(|p| ref_encode(sc.mode, &p).ok()).map(|b| format!("binary:{}", hex::enc(&b))) else { continue };
+                    // expected message per write, by the reference encoder on its own
+                    let mut index: std::collections::HashMap<String, usize> = std::collections::HashMap::new();
+                    for k in 0..*count as usize {
+                        match ref_encode(sc.mode, &burst_packet(k, *pad)) {
+                            Ok(b) => {
+                                let _ = index.insert(format!("binary:{}", hex::enc(&b)), k);
+                            },
+                            Err(_) => {
+                                rep.probe("expected_frame_not_encodable");
+                            },
+                        }
+                    }
+                    let Some(WEv::Abandoned { outcome, failed, last: last_res, got }) = evs.get(i) else {
+                        stopped = true;
+                        break 'steps;
+                    };
+                    i += 1;
+                    rep.fault("writes_abandoned_against_a_stalled_reader");
+                    let dropped = outcome.iter().filter(|o| **o == 0).count();
+                    if dropped >= 2 {
+                        rep.probe("writes_dropped_while_pending");
+                    }
+                    if let Some(e) = failed {
+                        rep.violations.push(v("ws.write_failed", format!("{} write #{} of {} against a stalled reader failed instead of waiting: {:?}", tag, outcome.len() - 1, count, e)));
+                        stopped = true;
+                        break 'steps;
+                    }
+                    if *last_res != AppRes::Done {
+                        rep.violations.push(v("ws.write_failed", format!("{} the write after the reader had resumed failed: {:?}", tag, last_res)));
+                        stopped = true;
+                        break 'steps;
+                    }
+                    // every message is exactly one written frame (each write's frame is unique);
+                    // they arrive in the order written and at most once (a dropped write may or
+                    // may not have got as far as the transport); completed writes all arrive;
+                    // the last message is the write awaited in full
+                    let mut bad: Option<String> = None;
+                    let mut prev: Option<usize> = None;
+                    let mut seen_completed = 0usize;
+                    for (mi, m) in got.iter().enumerate() {
+                        if mi + 1 == got.len() {
+                            if *m != want_last {
+                                bad = Some(format!("the last message seen by the server is {} but the write awaited in full was {}", m.chars().take(80).collect::<String>(), want_last.chars().take(80).collect::<String>()));
+                            }
+                            break;
+                        }
+                        match index.get(m) {
+                            None => {
+                                bad = Some(format!(
+                                    "message #{} seen by the server ({} bytes: {}) is not one written frame (several frames in one message, a torn frame, or something never written)",
+                                    mi,
+                                    m.len().saturating_sub(7) / 2,
+                                    m.chars().take(80).collect::<String>()
+                                ));
+                                break;
+                            },
+                            Some(k) => {
+                                if prev.map(|p| *k <= p).unwrap_or(false) {
+                                    bad = Some(format!("message #{} is the frame of write #{} but write #{} had already arrived (repeated or out of order)", mi, k, prev.unwrap()));
+                                    break;
+                                }
+                                if outcome.get(*k) == Some(&1) {
+                                    seen_completed += 1;
+                                }
+                                prev = Some(*k);
+                            },
+                        }
+                    }
+                    let completed = outcome.iter().filter(|o| **o == 1).count();
+                    if bad.is_none() && seen_completed < completed {
+                        bad = Some(format!("{} writes completed but only {} of their frames reached the server before the last one", completed, seen_completed));
+                    }
+                    if prev.map(|p| p >= outcome.len().saturating_sub(1)).unwrap_or(false) || got.len() > 200 {
+                        rep.probe("abandoned_burst_filled_ws_buffer");
+                    }
+                    if let Some(b) = bad {
+                        rep.violations.push(v("ws.abandoned_burst_messages", format!("{} {} writes ({} dropped after two polls) against a reader that had stopped, then resumed: {}", tag, count, dropped, b)));
                         stopped = true;
                         break 'steps;
                     }
